@@ -278,3 +278,95 @@ def split_and(test: ast.expr, truth: bool) -> List[Tuple[ast.expr, bool]]:
             return out
         return []
     return [(test, truth)]
+
+
+# ---------------------------------------------------------------------------------------------
+# Path-sensitive facts: the state is a set of alternatives (one per distinguishable path class),
+# each a frozenset of facts.  Exact for the small orchestration functions it is used on.
+# ---------------------------------------------------------------------------------------------
+
+class PathFacts(Analysis):
+    CAP = 256
+
+    def join(self, a, b):
+        u = a | b
+        if len(u) > self.CAP:
+            raise AnalysisError("too many path alternatives")
+        return u
+
+    # client API
+    def gen(self, stmt, alt) -> set:
+        return set()
+
+    def cond_facts(self, test, truth) -> set:
+        return set()
+
+    def fact_names(self, fact) -> set:
+        return set()
+
+    def contradicts(self, alt) -> bool:
+        return False
+
+    def transfer(self, stmt, state):
+        if isinstance(stmt, (ast.FunctionDef, ast.ClassDef)):
+            k = {stmt.name}
+        else:
+            k = {n.id for n in ast.walk(stmt) if isinstance(n, ast.Name) and isinstance(n.ctx, (ast.Store, ast.Del))}
+        out = set()
+        for alt in state:
+            a = frozenset(f for f in alt if not (self.fact_names(f) & k)) if k else alt
+            g = self.gen(stmt, a)
+            out.add(a | frozenset(g) if g else a)
+        return frozenset(out)
+
+    def bind_target(self, target, state):
+        k = {n.id for n in ast.walk(target) if isinstance(n, ast.Name)}
+        return frozenset(frozenset(f for f in alt if not (self.fact_names(f) & k)) for alt in state)
+
+    def assume(self, test, state, truth):
+        g = frozenset(self.cond_facts(test, truth))
+        out = set()
+        for alt in state:
+            a = alt | g
+            if not self.contradicts(a):
+                out.add(a)
+        return frozenset(out) if out else None
+
+
+class CallCount(Analysis):
+    """(min,max) number of matching calls executed on the paths reaching a point; max saturates at 3."""
+
+    def __init__(self, pred):
+        self.pred = pred
+
+    def join(self, a, b):
+        return (min(a[0], b[0]), max(a[1], b[1]))
+
+    def count(self, stmt):
+        n = 0
+        for x in _walk_local(stmt):
+            if isinstance(x, ast.Call) and self.pred(x):
+                n += 1
+        return n
+
+    def transfer(self, stmt, state):
+        if isinstance(stmt, (ast.FunctionDef, ast.ClassDef)):
+            return state
+        n = self.count(stmt)
+        return (min(3, state[0] + n), min(3, state[1] + n)) if n else state
+
+    def assume(self, test, state, truth):
+        n = self.count(test)
+        return (min(3, state[0] + n), min(3, state[1] + n)) if n else state
+
+
+def _walk_local(node):
+    stack = [node]
+    first = True
+    while stack:
+        n = stack.pop()
+        if not first and isinstance(n, (ast.FunctionDef, ast.AsyncFunctionDef, ast.ClassDef, ast.Lambda)):
+            continue
+        first = False
+        yield n
+        stack.extend(ast.iter_child_nodes(n))
